@@ -101,6 +101,15 @@ EXTRA["C18"] += " A TRACE handler registered by hand (no option) carries the Use
 EXTRA["C19"] += " Twin facade objects with the same prefix text and different middleware lists; removal of a hand-registered TRACE through a facade."
 EXTRA["C04"] += " Removal lists made only of unknown names."
 EXTRA["C01"] += " A multi-byte literal after a constrained parameter whose value may contain it; tables that start with five constrained parameter siblings and no literal one below one node."
+# additions of the eighth seeding round
+EXTRA["C01"] += " Pool patterns that end in an ignored-name parameter ({-x}, {-x:digit})."
+EXTRA["C05"] += " Requests whose header map holds Accept / Host / Origin / Content-Type with an empty or nil value list; CORS configurations whose lists have empty members (a 500 from the harness router's recovery option on anything but its one panicking route counts as a fault)."
+EXTRA["C08"] += " Handler programs that announce a Content-Length of their own."
+EXTRA["C14"] += " Fixed trials: domains with two and three parameters and capitals between them; an interceptor parameter before literal text that overlaps itself."
+EXTRA["C16"] += " Panic values that wrap context.Canceled and context.DeadlineExceeded."
+EXTRA["C17"] += " The rule family has a plain parameter below the constrained one, renamed on its own."
+EXTRA["C19"] += " A facade Remove whose method names are not upper case."
+EXTRA["C20"] += " Negative zero (-0, -0.0), compared by bit pattern."
 def main():
     checks = []
     for pid in ALL:
